@@ -5,6 +5,7 @@
 # from numpy.core.umath_tests import inner1d
 
 from prysm.mathops import np
+from prysm.conf import config
 
 from .surfaces import (
     STYPE_REFLECT,
@@ -427,6 +428,12 @@ def raytrace(surfaces, P, S, wvl, n_ambient=1):
     """
     P = np.asarray(P)
     S = np.asarray(S)
+    # P = [0, 0, -10], S = [0, 0, 1] arrive as integer arrays; positions and
+    # direction cosines are real numbers, and the histories take P's dtype
+    if P.dtype.kind != 'f':
+        P = P.astype(config.precision)
+    if S.dtype.kind != 'f':
+        S = S.astype(config.precision)
     jj = len(surfaces)
     P_hist = np.empty((jj+1, *P.shape), dtype=P.dtype)
     S_hist = np.empty((jj+1, *S.shape), dtype=P.dtype)
